@@ -24,6 +24,8 @@ EXPLANATION = (
     'and forwards all six arguments; for a valid parent the branch is exactly the parent\'s sampled predicate, '
     'RECORD_AND_SAMPLE on its true edge and DROP on the other, both with the parent\'s trace state; AlwaysOn/AlwaysOff '
     'return their constant decision on every path.')
+ROUND2_EXPLANATION = (' C12.R1 also: the argument of the threshold mapping in the constructor, folded for twelve sample ratios, is <= 0 / the ratio / >= 1. C12.R2b also: no integral conversion in the mapping is narrower than the interval of its operand; with (h, fr) = modf(x) the threshold equals x * (2^k + 1), which must stay below 2^64 (exact arithmetic). Prerequisites C05.R2-R4 are evaluated on Tracer::StartSpan.')
+EXPLANATION += ROUND2_EXPLANATION
 NOT_DECIDED = 'monotonicity of the floating-point threshold computation beyond the carry rule; statistical quality of the ratio.'
 
 PURE_LEAVES = ('memcpy', 'std::memcpy', 'ldexp', 'std::ldexp', 'modf', 'std::modf', 'std::to_string', 'std::operator+',
